@@ -206,10 +206,13 @@ func ruleDecodeTargetScope(r *Run) {
 // closure returns was passed to ScrubFields.Clean.
 func ruleReturnedDataScrubbed(r *Run) {
 	const rule = "R5.clean"
-	fn := r.Anchor(rule, "pebbles.(*Gateway).newSubscriptionEntry$1")
-	if fn == nil {
-		return
+	for _, fn := range r.AnchorRole(rule, "executorFn") {
+		r.returnedDataScrubbed(fn)
 	}
+}
+
+func (r *Run) returnedDataScrubbed(fn *ssa.Function) {
+	const rule = "R5.clean"
 	for _, ret := range returnsOf(fn) {
 		v := unwrap(retVals(ret)[0])
 		if isNilConst(v) {
@@ -245,7 +248,13 @@ func ruleBuiltinLists(r *Run) {
 	}
 	// string constants compared with a load of IntrospectionQueryDirective.Name whose true side continues the loop
 	skipped := map[string]bool{}
-	for _, b := range fn.Blocks {
+	var blocks []*ssa.BasicBlock
+	for g := range r.P.CG.Reachable([]*ssa.Function{fn}, nil) {
+		if topFn(g).Pkg == topFn(fn).Pkg {
+			blocks = append(blocks, g.Blocks...)
+		}
+	}
+	for _, b := range blocks {
 		iff, ok := b.Instrs[len(b.Instrs)-1].(*ssa.If)
 		if !ok {
 			continue
